@@ -506,8 +506,18 @@ class Run:
             mine = []
             other = 0
             only_tool = True
+            # KNOWNSIG[<obligation>]:... is asserted only on inputs where <obligation> is violated and states what the
+            # *recorded* defect computes; if it fails, the code violates <obligation> in a way that is not the recorded one
+            sig_obls = {}
+            for d, loc in r.failed:
+                m = re.match(r"^KNOWNSIG\[([^\]]+)\]", d)
+                if m:
+                    sig_obls[m.group(1)] = (d, loc)
+            n_sig_failed = 0
             for d, loc in r.failed:
                 cls, pid = classify_failed_check(d, sp.get("default_prop", self.prop))
+                if cls == "sig":
+                    continue
                 if cls == "tool":
                     self.undecided.append(dict(contract=short, reason="bound/tool limit: " + d, location=loc))
                     other += 1
@@ -518,15 +528,20 @@ class Run:
                     continue
                 mine.append((d, loc))
             # obligations carried for *this* property: all checks of the harness except clauses named for others
-            c["obligations"] = r.total
+            # KNOWNSIG:* assertions are diagnostics that characterise a recorded finding; they are not obligations
+            c["obligations"] = r.total - len(sig_obls)
             c["discharged"] = r.total - r.failed_n
             if r.status == "success" and r.covers_total and r.covers_sat < r.covers_total:
                 self.undecided.append(dict(contract=short, reason="vacuity: %d of %d cover properties unsatisfiable"
                                            % (r.covers_total - r.covers_sat, r.covers_total)))
+            for obl, (d, loc) in sig_obls.items():
+                if re.match(r"^(C\d\d):", obl) and obl.split(":")[0] == self.prop and not any(obligation_name(x, l) == obl for x, l in mine):
+                    mine.append((obl, loc))
             for d, loc in mine:
-                self.refuted.append(dict(obligation=obligation_name(d, loc), description=d, contract=short,
+                on = obligation_name(d, loc)
+                self.refuted.append(dict(obligation=on, description=d, contract=short,
                                          harness=name, crate=crate, location=loc, engine="kani",
-                                         kind=sp.get("kind", "complete")))
+                                         kind=sp.get("kind", "complete"), sig_violation=(on in sig_obls)))
             if r.failed_n and not r.failed:
                 self.undecided.append(dict(contract=short, reason="failed checks reported without descriptions"))
 
@@ -593,11 +608,16 @@ class Run:
         for r in self.refuted:
             key = (r["contract"], r["obligation"])
             if key in seen:
+                prev = next(x for x in self.refuted if (x["contract"], x["obligation"]) == key)
+                r["known"] = prev.get("known", False)
                 continue
             seen.add(key)
-            k = next((k for k in known if k.get("contract") == r["contract"] and k.get("obligation") == r["obligation"]), None)
+            k = next((k for k in known if known_matches(k, r)), None)
             if k:
-                lines.append("KNOWN-FINDING: property=%s %s" % (self.prop, k.get("what", r["obligation"])))
+                l = "KNOWN-FINDING: property=%s %s" % (self.prop, k.get("what", r["obligation"]))
+                if "contract_regex" in k:
+                    l += " [site: %s]" % r["contract"]
+                lines.append(l)
                 r["known"] = True
             else:
                 new.append(r)
@@ -621,12 +641,15 @@ class Run:
                               % (self.prop, path, r["obligation"], r["contract"], tail))
         complete = [c for c in self.contracts if c["kind"] == "complete"]
         bounded = [c for c in self.contracts if c["kind"] != "complete"]
-        known_n = {}
-        for r in self.refuted:
-            if r.get("known") and r.get("kind", "complete") == "complete":
-                known_n[r["contract"]] = known_n.get(r["contract"], 0) + 1
-        # obligations that are recorded known findings are reported under known_findings_reported, not counted
-        obl = sum(c["obligations"] for c in complete if c["status"] in ("success", "failed")) - sum(known_n.values())
+        # failed assertion instances that are recorded known findings are reported under known_findings_reported
+        # and are not counted as obligations of this run
+        known_keys = set((r["contract"], r["obligation"]) for r in self.refuted if r.get("known"))
+        new_contracts = set(r["contract"] for r in new)
+        excluded = 0
+        for c in complete:
+            if c["status"] == "failed" and c["name"] not in new_contracts and any(k[0] == c["name"] for k in known_keys):
+                excluded += c["obligations"] - c["discharged"]
+        obl = sum(c["obligations"] for c in complete if c["status"] in ("success", "failed")) - excluded
         dis = sum(c["discharged"] for c in complete if c["status"] in ("success", "failed"))
         wall = time.time() - self.t0
         vac_ok = (self.canaries_expected == self.canaries_refuted)
@@ -680,6 +703,24 @@ class Run:
         return 0
 
 
+def known_matches(k, r):
+    """A recorded finding is identified by property + contract (exact or regex) + obligation and, where given, by a
+    behavioural signature: a KNOWNSIG:* diagnostic assertion in the same contract that states exactly what the
+    recorded defect computes. If that diagnostic fails too, the code misbehaves in some *other* way and the
+    refutation is reported as a new violation."""
+    if k.get("obligation") != r["obligation"]:
+        return False
+    if "contract" in k and k["contract"] != r["contract"]:
+        return False
+    if "contract_regex" in k and not re.search(k["contract_regex"], r["contract"]):
+        return False
+    if "contract" not in k and "contract_regex" not in k:
+        return False
+    if r.get("sig_violation"):
+        return False
+    return True
+
+
 def slug(s):
     return re.sub(r"[^A-Za-z0-9_.-]+", "_", s)[:150]
 
@@ -695,6 +736,8 @@ def classify_failed_check(desc, default_prop):
         return "named", m.group(1)
     if desc.startswith("CANARY"):
         return "canary", None
+    if desc.startswith("KNOWNSIG["):
+        return "sig", None
     if _TOOL_PAT.search(desc):
         return "tool", None
     return "builtin", default_prop
